@@ -18,11 +18,15 @@ theorem SameKind.isPong {f f' : Frame} (h : SameKind f f') : f'.isPong = f.isPon
 
 /-! ### `checkConnectionReset` -/
 
-theorem checkConnectionReset_cases {α : Type} (w : World) (r : Res α) :
+/-- for every result other than `Err(ConnectionClosed)` (in particular for everything the codec
+returns, `codec_bufferFrame_ne_cc` / `codec_readFrame_ne_cc`) -/
+theorem checkConnectionReset_cases {α : Type} (w : World) (r : Res α)
+    (hne : r ≠ .err .connectionClosed) :
     (w.checkConnectionReset r = (w, r) ∧ ¬ (r = .err (.io .reset) ∧ w.c.state.canRead = false)) ∨
     (w.checkConnectionReset r = (w.setState .terminated, .err .connectionClosed) ∧
       r = .err (.io .reset) ∧ w.c.state.canRead = false) := by
-  unfold World.checkConnectionReset
+  rw [ccrOld_eq w r hne]
+  unfold ccrOld
   cases r with
   | ok a => exact Or.inl ⟨rfl, by simp⟩
   | panic s => exact Or.inl ⟨rfl, by simp⟩
@@ -44,6 +48,13 @@ theorem checkConnectionReset_cases {α : Type} (w : World) (r : Res α) :
     | protocol p => exact Or.inl ⟨rfl, by simp⟩
     | writeBufferFull f => exact Or.inl ⟨rfl, by simp⟩
     | utf8 => exact Or.inl ⟨rfl, by simp⟩
+
+/-- the transport is never touched -/
+theorem checkConnectionReset_t {α : Type} (w : World) (r : Res α) :
+    (w.checkConnectionReset r).1.t = w.t := by
+  by_cases hne : r = .err .connectionClosed
+  · subst hne; rfl
+  · rcases checkConnectionReset_cases w r hne with ⟨h, _⟩ | ⟨h, _⟩ <;> rw [h] <;> rfl
 
 /-! ### `bufferFrame` -/
 
@@ -123,6 +134,7 @@ theorem World.bufferFrame_spec (w : World) (f : Frame) :
     subst hr
     simp only [Res.isWriteBufferFull, if_true]
     rcases checkConnectionReset_cases (w0.setCodec c1 t1) (.err (.writeBufferFull f') : Res Unit)
+        (by intro h; cases h)
       with ⟨he, _⟩ | ⟨_, h, _⟩
     · rw [he]
       simp only [World.setCodec, hpc, hpq, hc, ht]
@@ -137,6 +149,7 @@ theorem World.bufferFrame_spec (w : World) (f : Frame) :
     simp only [hnw, Bool.false_eq_true, if_false]
     rcases checkConnectionReset_cases
         ({ w0.setCodec c1 t1 with queued := w0.queued ++ [f'] } : World) r
+        (by rcases hk with rfl | ⟨k, rfl⟩ <;> (intro h; cases h))
       with ⟨he, _⟩ | ⟨he, hr, hcr⟩
     · rw [he]
       simp only [World.setCodec, hpc, hpq]
@@ -228,7 +241,7 @@ theorem readRaw_spec (w : World) : RRSpec w (readRaw w).1 (readRaw w).2 := by
     w.c.cfg.acceptUnmasked = q at *
   obtain ⟨c1, t1, r⟩ := q
   simp only [] at h ⊢
-  rcases checkConnectionReset_cases (w.setCodec c1 t1) r with ⟨he, _⟩ | ⟨he, hr, hcr⟩
+  rcases checkConnectionReset_cases (w.setCodec c1 t1) r h.notClosed with ⟨he, _⟩ | ⟨he, hr, hcr⟩
   · rw [he]
     exact ⟨rfl, rfl, rfl, rfl, rfl, rfl, h.same, h.accepted, h.log, Or.inl rfl,
       fun hc => absurd hc h.notClosed, fun hn => h.ended (Or.inr hn)⟩
